@@ -253,7 +253,7 @@ View == <<ents, stack, nrem, devUsed, lastop>>
 \* ops/nid/actor are functions of the path, not of the abstract state: kept out of the fingerprint
 ViewState == <<ents, stack, nrem, devUsed>>
 EmitAll == (hist # <<>>) => PrintT(<<"BEH", ToJson(hist)>>)
-EmitDeep == (ops = MaxOps \/ Len(ents) = MaxEnt) => PrintT(<<"BEH", ToJson(hist)>>)
+EmitDeep == (ops = MaxOps) => PrintT(<<"BEH", ToJson(hist)>>)
 W(c) == c => (PrintT(<<"BEH", ToJson(hist)>>) /\ FALSE)
 LastE == ents[Len(ents)]
 IsStart == Len(ents) > 0 /\ LastE.kind # "remote" /\ lastop # <<>> /\ lastop[1] = "start" /\ ls # <<>> /\ ls.e = Len(ents)
